@@ -570,6 +570,9 @@ def positions(F, res, rule="U5"):
     res.floor("lsp Position constructions in the server library", sites, 3)
     # to_range: start with start, end with end
     tr = F.fn("glas::convert::to_range")
+    from lib import inline as _IL
+    if any((callee(t) or "").startswith("glas::convert::") and (callee(t) or "") in F.fns and F.fns[callee(t)].blocks for _b, t in tr.calls()):
+        tr = _IL.inlined(F, tr, want=lambda p: p.startswith("glas::convert::") and p != "glas::convert::to_range" and "{closure" not in p, depth=2)
     d = FL.Defs(tr)
     rn = [(b, t) for b, t in tr.calls() if FL.short(callee(t) or callee_def(t) or "") == "Range::new"]
     ra = [(b, s) for b, i, s in tr.stmts() if (s.get("rv") or {}).get("k") == "agg" and (s["rv"].get("adt") or "").endswith("lsp_types::Range")]
@@ -879,10 +882,14 @@ def line_ends_and_bom(F, res, rule="U8"):
     bom = []
     for f in rs:
         has = False
-        for b, t in f.calls():
-            for a in t["args"]:
-                k = a.get("k") if isinstance(a, dict) else None
-                if isinstance(k, dict) and k.get("ty") == "char" and str(k.get("bits")) == str(0xFEFF):
+        # in the reader or in a private helper it hands the text to; the mark as a literal or as a named constant (the facts carry its value)
+        for q in F.with_helpers(f.path, depth=2):
+            g = F.fns.get(q)
+            if g is None or not g.blocks or not q.startswith("glas::server::"):
+                continue
+            for o_ in FA.all_operands(g):
+                k = o_.get("k") if isinstance(o_, dict) else None
+                if isinstance(k, dict) and ((k.get("ty") == "char" and str(k.get("bits")) == str(0xFEFF)) or (isinstance(k.get("str"), str) and k["str"] == "\ufeff")):
                     has = True
         bom.append((FL.short(f.path), has))
     res.ob(rule, "disk-read/strips-bom", "a text read from disk does not start with a byte order mark (the reader drops it)", bool(bom) and all(h for _n, h in bom),
